@@ -150,3 +150,34 @@ void h_overlaps(void)
     VERIF_CANARY;
 }
 #endif
+
+/* ------------------------------------------------------------------------------------------------
+ * nudgeOrthogonalRoutes, building one region: the segments handed to the solver together are the reference segment's whole
+ * connected component under "overlaps".  If a segment that overlaps a region member is left behind, the two get no
+ * separation constraint and can end up collinear (C10's headline).  BOUNDED: at most 4 segments. */
+#if defined(JOB_region)
+struct PACKED Seg4 { void *vptr; size_t dimension; double minSpaceLimit; double maxSpaceLimit; };
+static struct Seg4 *seg_base;
+struct PACKED list8 { void *a[8]; size_t n; };
+static _Bool rel[4][4];
+_Bool w_overlaps(void *a, void *b, size_t dim) { long i = (struct Seg4 *)a - seg_base, j = (struct Seg4 *)b - seg_base; __CPROVER_assert(i >= 0 && i < 4 && j >= 0 && j < 4, "SPEC overlapsWith on list members"); return rel[i][j]; }
+void w_region(void *self, size_t dimension, void *region);
+void h_region(void)
+{
+  struct Seg4 seg[4]; struct list8 lst, region; size_t n, dim;
+  _Bool r[4][4];
+  __CPROVER_assume(n >= 1 && n <= 4);
+  seg_base = seg;
+  for (int i = 0; i < 4; ++i) { for (int j = 0; j < 4; ++j) { __CPROVER_assume(r[i][j] == r[j][i]); rel[i][j] = r[i][j]; } }
+  for (int i = 0; i < 4; ++i) lst.a[i] = &seg[i];
+  lst.n = n; region.n = 0;
+  w_region(&lst, dim, &region);
+  /* nothing is lost or duplicated, the reference segment leads its region */
+  __CPROVER_assert(region.n >= 1 && region.a[0] == (void *)&seg[0] && region.n + lst.n == n, "SPEC the region starts with the reference segment and nothing is lost");
+  /* closure: no segment left in the list overlaps a member of the region */
+  for (int i = 0; i < 4; ++i) for (int j = 0; j < 4; ++j)
+    if ((size_t)i < lst.n && (size_t)j < region.n)
+      __CPROVER_assert(!rel[(struct Seg4 *)lst.a[i] - seg][(struct Seg4 *)region.a[j] - seg], "SPEC no segment left behind overlaps a member of the region");
+  VERIF_CANARY;
+}
+#endif
